@@ -1,0 +1,15 @@
+package utils
+
+import "fmt"
+
+// RecoverToError turns a panic raised while decoding an on-disk file (index out of range on a
+// truncated or damaged file, ...) into an error of the calling function, so that the damage is
+// reported for that segment instead of taking the whole server down.
+//
+//	func decode(...) (res T, err error) {
+//		defer utils.RecoverToError(&err, "decode "+fileName)
+func RecoverToError(err *error, what string) {
+	if r := recover(); r != nil {
+		*err = fmt.Errorf("%s: corrupt data: %v", what, r)
+	}
+}
